@@ -8,6 +8,12 @@ import RV.C05.NtParser
 namespace RV.C05
 open Py
 
+instance instDecEqExcept {ε α} [DecidableEq ε] [DecidableEq α] : DecidableEq (Except ε α)
+  | .ok a, .ok b => if h : a = b then isTrue (by rw [h]) else isFalse (fun e => by injection e; contradiction)
+  | .error a, .error b => if h : a = b then isTrue (by rw [h]) else isFalse (fun e => by injection e; contradiction)
+  | .ok _, .error _ => isFalse (fun e => by cases e)
+  | .error _, .ok _ => isFalse (fun e => by cases e)
+
 /-! ### small facts -/
 
 theorem ofCode_val {n : Nat} {ch : Char} (h : ofCode n = some ch) : ch.toNat = n ∧ n ≤ 0x10FFFF := by
@@ -502,5 +508,335 @@ theorem matchLang_eq (r tag r' : Str) (hs : spanP langChar r = (tag, r')) (hl : 
           exact h1.1
       · simp [legalLangAux] at h1
     simp only [matchLang, hc, if_true, h2, hs]
+
+/-! ### terms -/
+
+/-- the reference reader's term, as the arguments rdflib's parser hands to `URIRef` / `BNode` / `Literal` -/
+def codeTerm : Term → PTerm
+  | .iri i => .iri (code i)
+  | .bnode l => .bnode (code l)
+  | .plain x => .lit (code x) none none
+  | .lang x t => .lit (code x) (some (code t)) none
+  | .typed x d => .lit (code x) none (some (code d))
+
+theorem hasSchemeAux_colon : ∀ (s : Str), hasSchemeAux s = true → ':' ∈ s
+  | [], h => by simp [hasSchemeAux] at h
+  | c :: cs, h => by
+    unfold hasSchemeAux at h
+    split at h
+    · rename_i hc; simp [hc]
+    · split at h
+      · exact List.mem_cons_of_mem _ (hasSchemeAux_colon cs h)
+      · cases h
+
+theorem hasScheme_colon {s : Str} (h : hasScheme s = true) : ':' ∈ s := by
+  cases s with
+  | nil => simp [hasScheme] at h
+  | cons c cs =>
+    simp only [hasScheme, Bool.and_eq_true] at h
+    exact List.mem_cons_of_mem _ (hasSchemeAux_colon cs h.2)
+
+theorem absolute_code {s : Str} (h : hasScheme s = true) : absolute (code s) = .ok (code s) := by
+  have : 58 ∈ code s := by
+    simp only [code, List.mem_map]
+    exact ⟨':', hasScheme_colon h, rfl⟩
+  simp [absolute, this]
+
+theorem iri_model (cs i rest : Str) (h : readIri .norm cs = some (i, rest)) (hs : hasScheme i = true) :
+    ∃ raw, matchUriref ('<' :: cs) = some (raw, rest) ∧ iriOf raw = .ok (code i) ∧ raw ≠ [] ∧ rest ⊆ cs := by
+  obtain ⟨raw, hcs, hall, hdec⟩ := readIri_decomp cs.length cs i rest (Nat.le_refl _) h
+  refine ⟨raw, ?_, ?_, ?_, ?_⟩
+  · have hsp : spanP uriChar (raw ++ '>' :: rest) = (raw, '>' :: rest) :=
+      spanP_append uriChar raw _ hall (fun c r hc => by
+        simp only [List.cons.injEq] at hc
+        rw [← hc.1]; decide)
+    simp only [matchUriref, hcs, hsp]
+  · simp only [iriOf, unquote_eq, hdec, absolute_code hs]
+  · intro hr
+    subst hr
+    have : code i = [] := by
+      have := hdec
+      simp only [decodeAux, Except.ok.injEq] at this
+      exact this.symm
+    have hi : i = [] := by simpa [code] using this
+    subst hi
+    simp [hasScheme] at hs
+  · rw [hcs]
+    intro x hx
+    simp [hx]
+
+theorem uriref_lt (cs i rest : Str) (h : readIri .norm cs = some (i, rest)) (hs : hasScheme i = true) :
+    uriref ('<' :: cs) = .ok (some (.iri (code i)), rest) := by
+  obtain ⟨raw, hm, hi, _, _⟩ := iri_model cs i rest h hs
+  simp only [uriref, hm, hi]
+
+theorem uriref_other {c : Char} (x : Str) (h : c ≠ '<') : uriref (c :: x) = .ok (none, c :: x) := by
+  unfold uriref
+  split
+  · rename_i heq
+    simp only [List.cons.injEq] at heq
+    exact absurd heq.1 h
+  · rfl
+
+theorem nodeid_other {c : Char} (x : Str) (h : c ≠ '_') : nodeid (c :: x) = .ok (none, c :: x) := by
+  unfold nodeid
+  split
+  · rename_i heq
+    simp only [List.cons.injEq] at heq
+    exact absurd heq.1 h
+  · rfl
+
+theorem matchUriref_other {c : Char} (x : Str) (h : c ≠ '<') : matchUriref (c :: x) = none := by
+  unfold matchUriref
+  split
+  · rename_i heq
+    simp only [List.cons.injEq] at heq
+    exact absurd heq.1 h
+  · rfl
+
+/-- [6] literal -/
+theorem readLiteral_model (cs : Str) (t : Term) (rest : Str) (h : readLiteral cs = some (t, rest)) :
+    literal ('"' :: cs) = .ok (some (codeTerm t), rest) ∧ rest ⊆ cs := by
+  unfold readLiteral at h
+  split at h
+  · cases h
+  · rename_i lex r0 hstr
+    obtain ⟨raw, hcs, hbody, hdec⟩ := readStr_decomp cs.length cs lex r0 (Nat.le_refl _) hstr
+    have hsub0 : r0 ⊆ cs := by
+      rw [hcs]; intro x hx; simp [hx]
+    split at h
+    · -- typed
+      rename_i r
+      split at h
+      · rename_i dt r' hiri
+        split at h
+        · rename_i hsch
+          simp only [Option.some.injEq, Prod.mk.injEq] at h
+          obtain ⟨rawdt, hm, hi, hne, hsub⟩ := iri_model r dt r' hiri hsch
+          refine ⟨?_, ?_⟩
+          · cases rawdt with
+            | nil => exact absurd rfl hne
+            | cons c0 rd =>
+              simp only [literal, hbody, litInfo, hm, hi, unquote_eq, hdec, ← h.1, ← h.2, codeTerm, Option.map_none]
+          · rw [← h.2]
+            intro x hx
+            exact hsub0 (by simp [hsub hx])
+        · cases h
+      · cases h
+    · -- language-tagged
+      rename_i r
+      split at h
+      rename_i tag r' hspan
+      split at h
+      · rename_i hleg
+        simp only [Option.some.injEq, Prod.mk.injEq] at h
+        have hm := matchLang_eq r tag r' hspan hleg
+        refine ⟨?_, ?_⟩
+        · simp only [literal, hbody, litInfo, hm, unquote_eq, hdec, ← h.1, ← h.2, codeTerm, Option.map_some]
+        · rw [← h.2]
+          have hsp := spanP_split langChar r
+          rw [hspan] at hsp
+          intro x hx
+          exact hsub0 (by rw [← hsp]; simp [hx])
+      · cases h
+    · -- plain
+      rename_i hn1 hn2
+      simp only [Option.some.injEq, Prod.mk.injEq] at h
+      have hinfo : litInfo r0 = (none, none, r0) := by
+        unfold litInfo
+        split
+        · rename_i r; exact absurd rfl (hn2 r)
+        · rename_i r
+          cases r with
+          | nil => simp [matchUriref]
+          | cons c x =>
+            have hc : c ≠ '<' := by
+              intro e; subst e; exact hn1 x rfl
+            simp [matchUriref_other x hc]
+        · rfl
+      refine ⟨?_, by rw [← h.2]; exact hsub0⟩
+      simp only [literal, hbody, hinfo, unquote_eq, hdec, ← h.1, ← h.2, codeTerm, Option.map_none]
+
+/-- [3] subject, [4] predicate, [5] object, graphLabel: what the grammar's reader accepts at a position,
+    the model of rdflib's `subject()` / `predicate()` / `object()` / context expression reads as the same term -/
+theorem readTerm_model (pos : Pos) (cs : Str) (t : Term) (rest : Str) (h : readTerm pos cs = some (t, rest)) :
+    rest ⊆ cs ∧
+    (pos = .subj → subject cs = .ok (codeTerm t, rest)) ∧
+    (pos = .pred → predicate cs = .ok (codeTerm t, rest)) ∧
+    (pos = .obj → object cs = .ok (codeTerm t, rest)) ∧
+    (pos = .graph → context cs = .ok (some (codeTerm t), rest)) := by
+  unfold readTerm at h
+  split at h
+  · -- IRIREF
+    rename_i cs'
+    unfold readIriTerm at h
+    split at h
+    · rename_i i r hiri
+      split at h
+      · rename_i hsch
+        simp only [Option.some.injEq, Prod.mk.injEq] at h
+        have hu := uriref_lt cs' i r hiri hsch
+        obtain ⟨_, _, _, _, hsub⟩ := iri_model cs' i r hiri hsch
+        rw [← h.1, ← h.2]
+        refine ⟨fun x hx => by simp [hsub hx], ?_, ?_, ?_, ?_⟩ <;> intro _ <;>
+          simp only [subject, predicate, object, context, hu, codeTerm]
+      · cases h
+    · cases h
+  · -- BLANK_NODE_LABEL
+    rename_i cs'
+    split at h
+    · cases h
+    · rename_i hpos
+      obtain ⟨l, ht, hm, hsub⟩ := readLabelTerm_model cs' t rest h
+      have hu : uriref ('_' :: ':' :: cs') = .ok (none, '_' :: ':' :: cs') := uriref_other _ (by decide)
+      have hn : nodeid ('_' :: ':' :: cs') = .ok (some (.bnode (code l)), rest) := by
+        simp only [nodeid, hm]
+      rw [ht]
+      refine ⟨fun x hx => by simp [hsub hx], ?_, fun e => absurd e hpos, ?_, ?_⟩ <;> intro _ <;>
+        simp only [subject, object, context, hu, hn, codeTerm]
+  · -- literal
+    rename_i cs'
+    split at h
+    · rename_i hpos
+      obtain ⟨hl, hsub⟩ := readLiteral_model cs' t rest h
+      have hu : uriref ('"' :: cs') = .ok (none, '"' :: cs') := uriref_other _ (by decide)
+      have hn : nodeid ('"' :: cs') = .ok (none, '"' :: cs') := nodeid_other _ (by decide)
+      subst hpos
+      exact ⟨fun x hx => by simp [hsub hx], (fun e => by cases e), (fun e => by cases e),
+        (fun _ => by simp only [object, hu, hn, hl]), (fun e => by cases e)⟩
+    · cases h
+  · cases h
+
+/-! ### the end of the statement -/
+
+theorem dropWhile_all (p : Char → Bool) : ∀ (l : Str), (∀ c ∈ l, p c = true) → l.dropWhile p = []
+  | [], _ => rfl
+  | c :: l, h => by
+    simp only [List.dropWhile, h c (by simp)]
+    exact dropWhile_all p l (fun x hx => h x (by simp [hx]))
+
+theorem finish_ok {α} (x : α) (r : Str) (h : endOfStatement r = true) (hnl : '\n' ∉ r) :
+    finish x r = .ok (some x) := by
+  unfold endOfStatement at h
+  split at h
+  · rename_i r' hs
+    have hsub : r' ⊆ r := fun c hc => skipWs_subset r (by rw [hs]; simp [hc])
+    unfold lineEnd at h
+    split at h
+    · rename_i hs2
+      simp only [finish, eatTail, hs, hs2]
+    · rename_i c r'' hs2
+      have hc : c = '#' := by simpa using h
+      subst hc
+      have hsub2 : r'' ⊆ r' := fun c hc => skipWs_subset r' (by rw [hs2]; simp [hc])
+      have hd : r''.dropWhile (fun c => c != '\n') = [] := by
+        apply dropWhile_all
+        intro c hc
+        have : c ≠ '\n' := fun e => hnl (e ▸ hsub (hsub2 hc))
+        simpa using this
+      simp only [finish, eatTail, hs, hs2, hd]
+  · cases h
+
+theorem skipWs_idem : ∀ (cs : Str), skipWs (skipWs cs) = skipWs cs
+  | [] => rfl
+  | c :: cs => by
+    by_cases h : c = ' ' ∨ c = '\t'
+    · simp only [skipWs, h, if_true]; exact skipWs_idem cs
+    · simp only [skipWs, h, if_false]
+
+theorem finish_skipWs {α} (x : α) (r : Str) : finish x (skipWs r) = finish x r := by
+  simp only [finish, eatTail, skipWs_idem]
+
+/-! ### lines -/
+
+def codeTriple (t : Triple) : PTriple := (codeTerm t.1, codeTerm t.2.1, codeTerm t.2.2)
+def codeQuad (q : Quad) : PQuad := (codeTerm q.1, codeTerm q.2.1, codeTerm q.2.2.1, q.2.2.2.map codeTerm)
+
+theorem ntParseline_refines (line : Str) (r : Option Triple) (hnl : '\n' ∉ line)
+    (h : NT.parseLine line = some r) : ntParseline line = .ok (r.map codeTriple) := by
+  unfold NT.parseLine at h
+  split at h
+  · rename_i hb
+    simp only [Option.some.injEq] at h
+    subst h
+    simp [ntParseline, hb]
+  · rename_i hb
+    split at h
+    · cases h
+    · rename_i s r1 h1
+      split at h
+      · cases h
+      · rename_i p r2 h2
+        split at h
+        · cases h
+        · rename_i o r3 h3
+          split at h
+          · rename_i he
+            simp only [Option.some.injEq] at h
+            subst h
+            obtain ⟨s1, hs, _, _, _⟩ := readTerm_model .subj _ s r1 h1
+            obtain ⟨s2, _, hp, _, _⟩ := readTerm_model .pred _ p r2 h2
+            obtain ⟨s3, _, _, ho, _⟩ := readTerm_model .obj _ o r3 h3
+            have hsub : r3 ⊆ line := fun c hc =>
+              skipWs_subset line (s1 (skipWs_subset r1 (s2 (skipWs_subset r2 (s3 hc)))))
+            have hf := finish_ok (codeTriple (s, p, o)) r3 he (fun hc => hnl (hsub hc))
+            simp only [ntParseline, hb, Bool.false_eq_true, if_false, hs rfl, hp rfl, ho rfl]
+            exact hf
+          · cases h
+
+theorem context_dot (r : Str) : context ('.' :: r) = .ok (none, '.' :: r) := by
+  simp only [context, uriref_other r (show '.' ≠ '<' by decide), nodeid_other r (show '.' ≠ '_' by decide)]
+
+theorem nqParseline_refines (line : Str) (r : Option Quad) (hnl : '\n' ∉ line)
+    (h : NQ.parseLine line = some r) : nqParseline line = .ok (r.map codeQuad) := by
+  unfold NQ.parseLine at h
+  split at h
+  · rename_i hb
+    simp only [Option.some.injEq] at h
+    subst h
+    simp [nqParseline, hb]
+  · rename_i hb
+    split at h
+    · cases h
+    · rename_i s r1 h1
+      split at h
+      · cases h
+      · rename_i p r2 h2
+        split at h
+        · cases h
+        · rename_i o r3 h3
+          obtain ⟨s1, hs, _, _, _⟩ := readTerm_model .subj _ s r1 h1
+          obtain ⟨s2, _, hp, _, _⟩ := readTerm_model .pred _ p r2 h2
+          obtain ⟨s3, _, _, ho, _⟩ := readTerm_model .obj _ o r3 h3
+          have hsub : r3 ⊆ line := fun c hc =>
+            skipWs_subset line (s1 (skipWs_subset r1 (s2 (skipWs_subset r2 (s3 hc)))))
+          split at h
+          · -- no graph label
+            rename_i he
+            simp only [Option.some.injEq] at h
+            subst h
+            have hf := finish_ok (codeQuad (s, p, o, none)) r3 he (fun hc => hnl (hsub hc))
+            have hdot : ∃ r', skipWs r3 = '.' :: r' := by
+              unfold endOfStatement at he
+              split at he
+              · rename_i r' hr; exact ⟨r', hr⟩
+              · cases he
+            obtain ⟨r', hr'⟩ := hdot
+            simp only [nqParseline, hb, Bool.false_eq_true, if_false, hs rfl, hp rfl, ho rfl, hr', context_dot]
+            rw [← hr', finish_skipWs]
+            exact hf
+          · split at h
+            · cases h
+            · rename_i g r4 h4
+              split at h
+              · rename_i he
+                simp only [Option.some.injEq] at h
+                subst h
+                obtain ⟨s4, _, _, _, hg⟩ := readTerm_model .graph _ g r4 h4
+                have hsub4 : r4 ⊆ line := fun c hc => hsub (skipWs_subset r3 (s4 hc))
+                have hf := finish_ok (codeQuad (s, p, o, some g)) r4 he (fun hc => hnl (hsub4 hc))
+                simp only [nqParseline, hb, Bool.false_eq_true, if_false, hs rfl, hp rfl, ho rfl, hg rfl]
+                exact hf
+              · cases h
 
 end RV.C05
